@@ -105,6 +105,14 @@ def run_check_guarded(mod, case):
     """check(case) never raises out of here: harness exceptions become a 'harness-error' violation-like
     record that the parent turns into exit 2 (not a VIOLATION)."""
     try:
+        if isinstance(case, dict) and case.get("deep_algorithms"):
+            # configuration drawn by the strategy: optyx's iterative (deep-tree) algorithms are used for this case's
+            # ordinary-sized expressions (the four _RECURSION_THRESHOLD module attributes set to 1 from outside)
+            from harness.common import thresholds
+            with thresholds(1):
+                res = mod.check(case)
+            res.classes = list(res.classes) + ["cfg:deep-tree-algorithms"]
+            return res
         return mod.check(case)
     except HarnessError as e:
         return Result("harness", "harness-error", str(e))
@@ -118,6 +126,14 @@ class HarnessError(Exception):
 # worker
 # ------------------------------------------------------------------------------------------
 def worker_main(pid, tier, seed, w, W, outfile):
+    # memory guard: a runaway allocation in the code under test becomes a MemoryError inside this worker (judged like
+    # any other exception of the code under test) instead of exhausting the machine
+    try:
+        import resource
+        cap = int(float(os.environ.get("VERIF_WORKER_MEM_GB", "6")) * 2 ** 30)
+        resource.setrlimit(resource.RLIMIT_AS, (cap, cap))
+    except Exception:
+        pass
     import hypothesis
     from hypothesis import HealthCheck, Phase, given, settings
 
@@ -293,8 +309,17 @@ def run_main(pid, tier):
         )
         procs.append((p, out))
     results, failed_workers = [], []
+    # a wall-clock budget per run is a harness guard, never a verdict: a worker that exceeds it is killed and the run
+    # is reported as a harness error (exit 2) unless other workers found a violation
+    deadline = time.time() + float(os.environ.get("VERIF_WORKER_TIMEOUT_S", "1500" if tier == "quick" else "14400"))
     for p, out in procs:
-        so, _ = p.communicate()
+        try:
+            so, _ = p.communicate(timeout=max(1.0, deadline - time.time()))
+        except subprocess.TimeoutExpired:
+            p.kill()
+            so, _ = p.communicate()
+            failed_workers.append(("timeout", "worker exceeded VERIF_WORKER_TIMEOUT_S and was killed\n" + so.decode(errors="replace")[-1500:]))
+            continue
         if p.returncode != 0 or not os.path.exists(out):
             failed_workers.append((p.returncode, so.decode(errors="replace")[-3000:]))
             continue
